@@ -100,6 +100,15 @@ CLAIMS = {
             "package; SnapshotProvider answers are def-use connected to the captured fields. Verdict equality with the live "
             "provider is not decided.",
             "DESIGN.md section 4 C16"),
+    "C17": ("rustc layout_of <-> clang record-layout agreement, clang AST analysis of the callback table and allocator calls, MIR def-use of the Rust bridge",
+            "Decides the ABI/protocol clause of C17 from two type-checked views of the same tree (rustc facts of resolvo_cpp; clang "
+            "record layouts and AST of the hand-written headers plus the cbindgen headers of the same build): identical size/align/"
+            "field offsets of every shared record incl. Vector<T>::Header for all 5 instantiations, element area at sizeof(Header) "
+            "with alignof(T)<=alignof(Header), layout-equal transmutes, FFI-safe signatures, callback table initialiser in field order "
+            "with each bridge calling its own virtual method, allocate/free size+align symmetry on both sides, Rust deallocs from the "
+            "stored capacity, static empty vector never counted/freed, and field-by-field mapping in the Rust bridge. The pinned suite "
+            "has one size/align test for four id types. Result equality and memory safety over all operation sequences are not decided.",
+            "DESIGN.md section 4 C17"),
     "C18": ("lookup-before-alloc guard dominance (T-MEMO), who-may-mutate census on the arena's UnsafeCell, chunk-capacity agreement, API signature rule (MIR + impl tables)",
             "Decides the structural clause of C18: the deduplicating intern functions allocate only on the miss edge of their "
             "lookup and record the fresh id; resolve functions index the paired arena; through &self only Arena::alloc mutates the "
@@ -155,7 +164,7 @@ def main():
                 "thorough_cmd": "./check %s --tier thorough" % pid,
                 "evidence_file": "/verif/evidence/%s.json" % pid,
                 "replay_cmd_template": "./check %s --tier quick --replay {path}" % pid,
-                "engine": "factdb+rules",
+                "engine": "factdb+rules" + ("+cxxfacts" if pid == "C17" else ""),
                 "level_claimed": {"category": "other", "text": text, "design_ref": ref},
                 "level_note": TRUST,
                 "technique": "static analysis: " + tech,
@@ -179,6 +188,8 @@ def main():
              "kind_free_text": "rustc_private driver: serialises MIR (pre coroutine transform), ADT/impl/layout facts of every workspace crate"},
             {"name": "rules", "path": "/verif/rules", "serves_properties": sorted(CLAIMS),
              "kind_free_text": "python rule evaluators over the facts: dominators, post-dominators, loops, def-use, censuses"},
+            {"name": "cxxfacts", "path": "/verif/lib/cxx.py", "serves_properties": ["C17"],
+             "kind_free_text": "clang++ -fsyntax-only record layouts and filtered JSON AST of cpp/include/*.h + the cbindgen headers of the same build"},
             {"name": "selftest", "path": "/verif/mutants", "serves_properties": sorted(CLAIMS),
              "kind_free_text": "scratch-copy mutants each rule must report (thorough tier; recorded in evidence)"},
         ],
